@@ -702,6 +702,9 @@ impl<'r> Runner<'r> {
             self.rep.count(n);
             if n == "oracle-inconsistency" {
                 self.rep.inconclusive("oracle inconsistency: a complete reference proof admitted a counter-model (harness defect)");
+                let (z, p) = (env.z, env.p.clone());
+                let exp = findings.iter().map(|f| f.expected.clone()).next().unwrap_or(Value::Null);
+                self.report("harness-oracle-inconsistency", c.claim.as_str(), || c.to_json(z, &p), exp, json!({"verdict": vn}));
             }
         }
         if verdict == Proof::Secure && findings.is_empty() {
